@@ -109,6 +109,7 @@ PROPS.update({
         "min_reach": {"any": ["reach:xml-special-characters-in-names", "reach:non-ascii-names", "reach:extreme-magnitude-weights", "reach:infinite-weights", "reach:file-variant"]},
     },
     "C19": {
+        "cpu_budget": 20,
         "level": "fault_enumeration",
         "rule": "(a) grammar-generated GraphML documents, half of them hostile (keys without for/id, duplicated attributes, unknown entities, non-numeric / escaped / CDATA / padded weight text, data before, after and outside edges, nested elements inside data, empty <graph/>, several graphs, missing attributes, trailing garbage); (b) fault enumeration: for each well-formed base document of 150-700 bytes EVERY prefix truncation, EVERY single-byte deletion, EVERY single-byte duplication, one bit flip per byte (kept if still UTF-8), every tag deletion and duplication; (c) hand-picked hostile fragments and 10^3..10^5-deep nesting. Each document is read under 6 GraphSpecs with catch_unwind, a logical step budget of len+16 event-loop iterations (verif-hooks tick) and abort attribution; Ok(graph) is compared with an independent scan of the same text (own quick-xml event loop) replayed on the reference Model. Non-trivial = every document; distinct = distinct base documents / fragments (variants are counted in fault-variants).",
         "assumptions": COMMON + ["the quick-xml tokenizer is shared with graphrs and trusted", "content is only compared where the statement fixes the meaning: documents the tokenizer rejects, unreadable attributes, several graph elements and misplaced / CDATA / late-declared weight data are checked for totality (and node/edge identity where possible) only", "the fault space enumerated per base document is complete for truncation, byte deletion and byte duplication; bit flips are one seeded bit per byte"],
@@ -135,6 +136,7 @@ PROPS.update({
 PROPS.update({
     "C20": {
         "custom": "c20",
+        "cpu_budget": 10,
         "level": "exploration",
         "rule": "an explicit table of ~100 public functions (Graph queries, degrees, density, matrix, derived graphs, ensure_*, every function of algorithms::*, generators, GraphML I/O, Edge/Node/GraphSpecs constructors, mutation entry points) with argument recipes: every existing node / pair, one absent name for functions with a Result/Option channel, weighted in {false,true}, k in {1,2,n,n+1}, partitions in {singletons, whole, foreign-name, overlapping}. Graphs: EXHAUSTIVE small scope - for each of the 8 kinds every graph on n<=2 (quick) / n<=3 (thorough) nodes (all subsets of the allowed pairs incl. loops; multi-edge kinds also doubled edges) x {unweighted, weighted} - plus named degenerate shapes and random graphs (n<=12; self-loop-only, parallel-only, stars, paths, components, ...). Every call runs under catch_unwind, the Louvain step budget and the CPU watchdog, in two builds (checked: overflow checks + debug assertions; plain release); per-case digests of all returned values are compared across the builds. Non-trivial = every graph; distinct = distinct graph hashes.",
         "assumptions": COMMON + ["functions without an error channel are only called with names that exist", "weights are positive or NaN (negative weights are outside the property)", "no value oracle here (values are C02-C18's business); only totality and cross-build agreement"],
